@@ -341,6 +341,7 @@ class PlainQuantity(Generic[MagnitudeT], PrettyIPython, SharedRegistryObject):
         return not bool(tmp.dimensionality)
 
     _dimensionality: UnitsContainerT | None = None
+    _dimensionality_units: UnitsContainerT | None = None
 
     @property
     def dimensionality(self) -> UnitsContainerT:
@@ -350,8 +351,11 @@ class PlainQuantity(Generic[MagnitudeT], PrettyIPython, SharedRegistryObject):
         dict
             Dimensionality of the PlainQuantity, e.g. ``{length: 1, time: -1}``
         """
-        if self._dimensionality is None:
+        # in-place operations replace self._units: the cached value is only
+        # valid for the units it was computed from
+        if self._dimensionality is None or self._dimensionality_units is not self._units:
             self._dimensionality = self._REGISTRY._get_dimensionality(self._units)
+            self._dimensionality_units = self._units
 
         return self._dimensionality
 
